@@ -163,6 +163,35 @@ def big():
             [{"uid": 1, "f": k} for k in (0, n - 1, n, 0.5)]  # fmt: skip
     for n in (200, 600):
         yield f"splitters:{n}", prog("exp", tuple(f"s{k}" for k in range(n)), ("ret", (("A", "1"), ("B", "1")))), [{f"s{k}": (k + j) for k in range(n)} for j in range(2)]
+    # long MIXED boolean runs: a bracketed `or` at the bottom of a left-nested `and` run (and the mirror image); a renderer that
+    # drops "redundant" parentheses of long runs changes the meaning.  Lengths up to 199 (Python's own nesting limit is 200).
+    for n in (10, 59, 99, 100, 101, 120, 150, 199):
+        for lo, hi in (("or", "and"), ("and", "or")):
+            a, b = ("cmp", ("id", "a"), "==", ("lit", 1)), ("cmp", ("id", "b"), "==", ("lit", 1))
+            p = (lo, a, b)
+            for k in range(n - 1):
+                p = (hi, p, ("cmp", ("id", "f"), "!=", ("lit", k)))
+            envs = [{"uid": 1, "a": x, "b": y, "f": f} for x in (0, 1) for y in (0, 1) for f in (-1, 0, n - 2)]
+            yield f"boolmix:{lo}-under-{hi}:{n}", prog("exp", ("uid",), ("if", p, T, F)), envs
+            q = None  # right operand bracketed: f != 0 and (... and (a or b))
+            q = (lo, a, b)
+            for k in range(min(n, 60) - 1):
+                q = (hi, ("cmp", ("id", "f"), "!=", ("lit", k)), q)
+            yield f"boolmix-right:{lo}-under-{hi}:{n}", prog("exp", ("uid",), ("if", q, T, F)), envs
+    # laziness: a comparison that is only type-correct behind its guard, written several times in one program (and / or
+    # short-circuit, untaken branches): nothing may evaluate it early
+    G = ("cmp", ("id", "kind"), "==", ("lit", "num"))
+    V = ("cmp", ("id", "value"), ">", ("lit", 100))
+    W = ("cmp", ("lit", "vip"), "in", ("id", "tags"))
+    N = ("cmp", ("id", "n"), ">", ("lit", 0))
+    R = lambda x: ("ret", ((x, "1"),))  # noqa: E731
+    lazy_envs = [{"uid": 1, "kind": "num", "value": 150, "n": 1, "tags": ("vip",)}, {"uid": 1, "kind": "num", "value": 50, "n": 1, "tags": ()},
+                 {"uid": 1, "kind": "txt", "value": "abc", "n": 0, "tags": None}, {"uid": 1, "kind": "none", "value": None, "n": 0, "tags": 5},
+                 {"uid": 1, "kind": "txt", "value": None, "n": 2, "tags": "a vip b"}]
+    yield "lazy:and-twice", prog("exp", ("uid",), ("if", ("and", G, V), R("A"), ("elif", ("or", ("and", G, V), ("and", N, W)), R("B"), ("else", R("C"))))), lazy_envs
+    yield "lazy:nested-twice", prog("exp", ("uid",), ("if", G, ("if", V, R("A"), ("else", R("B"))), ("elif", ("and", N, W), R("C"), ("elif", ("and", N, W), R("D"), ("else", R("E")))))), lazy_envs
+    yield "lazy:or-guard", prog("exp", ("uid",), ("if", ("or", ("not", G), V), R("A"), ("elif", ("or", ("not", G), V), R("B"), ("else", ("if", ("or", ("not", N), W), R("C"), None))))), lazy_envs
+    yield "lazy:thrice", prog("exp", ("uid",), ("if", ("and", G, ("and", V, V)), R("A"), ("elif", ("and", ("and", N, W), ("and", N, W)), R("B"), ("elif", ("and", G, V), R("C"), None)))), lazy_envs
     big = 10**310 + 7
     for lit, vals in ((big, [big, big + 1, 1e308, float("inf")]), (-big, [-big, 0]), (2**64, [2**64, float(2**64)]), (10**100, [10**100, 1e100])):
         for op in ("==", "<", ">="):
